@@ -54,3 +54,24 @@ Proof.
            end; cbn; try reflexivity; try congruence; try discriminate;
     unfold quiet, workers_idle in *; cbn in *; bool_hyps; subst; cbn in *; try reflexivity; try discriminate; try congruence.
 Qed.
+
+(* ---- the same certificate for the whole time acquire_stop waits for the workers (PipeLiveG.v): plain stop included *)
+From Pipe Require Import PipeLiveG.
+
+Theorem stop_progress y i a e s' :
+  reachable y -> let s := stream_of y i in
+  Pg s -> step_stream s a e = Some s' -> a <> ACli -> gmeasure s' < gmeasure s \/ poll_event s a e = true.
+Proof.
+  intros Hr s Hp H Ha. destruct (reachable_sinv y i Hr) as (H1 & _ & H3 & _). eapply gprogress_step; eauto. apply reachable_inv5_stream; assumption.
+Qed.
+
+Theorem stop_poll_bound y i a e s' :
+  reachable y -> let s := stream_of y i in
+  Pg s -> step_stream s a e = Some s' -> poll_event s a e = true -> gmeasure s' <= gmeasure s + 2.
+Proof. intros Hr s Hp H Hq. destruct (reachable_sinv y i Hr) as (H1 & _). eapply gpoll_bound; eauto. Qed.
+
+Theorem stop_no_deadlock y i :
+  reachable y -> let s := stream_of y i in
+  Pg s -> workers_idle s = false ->
+  exists a e s', a <> ACli /\ step_stream s a e = Some s' /\ gmeasure s' < gmeasure s.
+Proof. intros Hr s Hp Hw. apply gprogress_enabled; auto. apply reachable_sinv; assumption. apply reachable_inv5_stream; assumption. Qed.
